@@ -137,3 +137,430 @@ def bulk_accessor_defined_with_per_sample(res, classes, item="class"):
                    detail="" if (not has_item or has_all) else
                    f"{cls} defines getitem_{item} but inherits getall_{item} from the wrapped dataset through __getattr__",
                    model=None if (not has_item or has_all) else {"class": cls})
+
+
+# ------------------------------------------------------------------------------------------------ C07 / C08 / C09
+import glob as _glob
+
+TRANSFORM_DIRS = ["kappadata/transforms", "kappadata/common/transforms", "kappadata/utils/magnitude_sampler.py"]
+GLOBAL_SOURCES = ("np.random.", "numpy.random.", "random.", "torch.rand", "torch.randint", "torch.randperm", "torch.normal",
+                  "torch.multinomial", "torch.bernoulli", "GlobalRng", "get_rng_from_global")
+
+
+def repo_classes(dirs):
+    """-> list of (relpath, ClassDef) for every class defined under the given repo directories / files"""
+    out = []
+    for d in dirs:
+        paths = [os.path.join(REPO, d)] if d.endswith(".py") else sorted(_glob.glob(os.path.join(REPO, d, "**", "*.py"), recursive=True))
+        for p in paths:
+            rel = os.path.relpath(p, REPO)
+            m = module(rel)
+            for name, cd in m.classes.items():
+                out.append((rel, cd))
+    return out
+
+
+def _is_transform_class(eng, clsid):
+    try:
+        return any(c.endswith("::KDTransform") for c in eng.mro(clsid))
+    except Exception:
+        return False
+
+
+def _self_attr(node):
+    return node.attr if isinstance(node, ast.Attribute) and isinstance(node.value, ast.Name) and node.value.id == "self" else None
+
+
+def members_of(eng, clsid):
+    """attributes that __init__ (own or inherited repo bases) binds to transforms: KD transform constructor calls,
+    object_to_transform(...), constructor parameters named transform / transforms, and lists / comprehensions of those"""
+    mem = {}
+    for c in eng.mro(clsid):
+        if "::" not in c:
+            continue
+        m, cd = eng.class_def(c)
+        init = next((n for n in cd.body if isinstance(n, ast.FunctionDef) and n.name == "__init__"), None)
+        if init is None:
+            continue
+        params = {a.arg for a in init.args.args + init.args.kwonlyargs}
+        for n in ast.walk(init):
+            if not isinstance(n, ast.Assign):
+                continue
+            for t in n.targets:
+                a = _self_attr(t)
+                if a is None:
+                    continue
+                kind = _transform_value(eng, m, n.value, params)
+                if kind:
+                    mem[a] = kind
+    return mem
+
+
+def _transform_value(eng, m, v, params):
+    if isinstance(v, ast.Call):
+        f = ast.unparse(v.func)
+        if f.split(".")[-1] == "object_to_transform":
+            return "object_to_transform"
+        name = f.split(".")[-1]
+        target = None
+        if name in m.classes:
+            target = f"{m.relpath}::{name}"
+        elif name in m.imports and m.imports[name].startswith("kappadata"):
+            r = eng.resolve_dotted(m.imports[name])
+            if r and r[1] in r[0].classes:
+                target = f"{r[0].relpath}::{r[1]}"
+        if target and _is_transform_class(eng, target):
+            return "ctor:" + target
+        if name == "MagnitudeSampler":
+            return None
+    if isinstance(v, ast.Name) and v.id in params and v.id in ("transform", "transforms"):
+        return "param"
+    if isinstance(v, (ast.List, ast.Tuple)):
+        ks = [_transform_value(eng, m, e, params) for e in v.elts]
+        if ks and all(ks):
+            return "list"
+    if isinstance(v, ast.ListComp):
+        k = _transform_value(eng, m, v.elt, params | {g.target.id for g in v.generators if isinstance(g.target, ast.Name)})
+        if k:
+            return "list:" + k
+        if isinstance(v.elt, ast.Call) and ast.unparse(v.elt.func).split(".")[-1] == "object_to_transform":
+            return "list:object_to_transform"
+    return None
+
+
+def set_rng_reach(eng, clsid):
+    """-> (defining class of the resolved set_rng, set of member attribute names on which .set_rng is called inside it
+    (directly or through a loop variable bound to self.<attr>), does it (or a super() chain) bind self.rng)"""
+    r = eng.find_method(clsid, "set_rng")
+    if r is None or r[0] != "repo":
+        return None, set(), False
+    fi, owner = r[1], r[2]
+    reach, binds = set(), False
+    loopvars = {}
+    for n in ast.walk(fi.node):
+        if isinstance(n, ast.For) and isinstance(n.target, ast.Name):
+            a = _self_attr(n.iter)
+            if a:
+                loopvars[n.target.id] = a
+    for n in ast.walk(fi.node):
+        if isinstance(n, ast.Call) and isinstance(n.func, ast.Attribute) and n.func.attr == "set_rng":
+            a = _self_attr(n.func.value)
+            if a:
+                reach.add(a)
+            elif isinstance(n.func.value, ast.Name) and n.func.value.id in loopvars:
+                reach.add(loopvars[n.func.value.id])
+            elif isinstance(n.func.value, ast.Call) and ast.unparse(n.func.value.func) == "super":
+                rr = eng.find_method(clsid, "set_rng", after=owner)
+                if rr and rr[0] == "repo":
+                    _, r2, b2 = set_rng_reach(eng, rr[2])
+                    reach |= r2
+                    binds = binds or b2
+        if isinstance(n, ast.Assign) and any(_self_attr(t) == "rng" for t in n.targets):
+            binds = True
+    return owner, reach, binds
+
+
+def owns_rng(eng, clsid):
+    """does an __init__ in the MRO bind self.rng?"""
+    for c in eng.mro(clsid):
+        if "::" not in c:
+            continue
+        m, cd = eng.class_def(c)
+        init = next((n for n in cd.body if isinstance(n, ast.FunctionDef) and n.name == "__init__"), None)
+        if init and any(isinstance(n, ast.Assign) and any(_self_attr(t) == "rng" for t in n.targets) for n in ast.walk(init)):
+            return True
+    return False
+
+
+def global_random_reads(cd, rel, skip=("__init__", "worker_init_fn", "_worker_init_fn")):
+    """calls in the methods of a class that read a process-global random source (or torch draws without generator=)"""
+    bad = []
+    for fn in cd.body:
+        if not isinstance(fn, ast.FunctionDef) or fn.name in skip:
+            continue
+        for n in ast.walk(fn):
+            if not isinstance(n, ast.Call):
+                continue
+            f = ast.unparse(n.func)
+            if f.startswith(("np.random.default_rng", "numpy.random.default_rng")):
+                seeded = bool(n.args) or any(k.arg == "seed" for k in n.keywords)
+                if not seeded:
+                    bad.append(f"{rel}:{n.lineno} {f}() without a seed (OS entropy)")
+                continue
+            if f.startswith(("torch.rand", "torch.randint", "torch.randperm", "torch.normal", "torch.multinomial", "torch.bernoulli")):
+                if not any(k.arg == "generator" for k in n.keywords):
+                    bad.append(f"{rel}:{n.lineno} {f}(...) without generator=")
+                continue
+            if f.startswith(("np.random.", "numpy.random.")) or f in ("GlobalRng", "get_rng_from_global") or \
+                    (f.startswith("random.") and f.split(".")[1] in ("random", "randint", "choice", "shuffle", "uniform", "sample", "gauss")):
+                bad.append(f"{rel}:{n.lineno} {f}(...)")
+    return bad
+
+
+def transform_table(eng=None):
+    from .engine import Engine
+    eng = eng or Engine()
+    rows = []
+    for rel, cd in repo_classes(TRANSFORM_DIRS):
+        clsid = f"{rel}::{cd.name}"
+        if not _is_transform_class(eng, clsid) and cd.name != "MagnitudeSampler":
+            continue
+        mem = members_of(eng, clsid) if cd.name != "MagnitudeSampler" else {}
+        owner, reach, binds = set_rng_reach(eng, clsid) if cd.name != "MagnitudeSampler" else (None, set(), False)
+        rows.append({"class": clsid, "members": mem, "set_rng_owner": owner, "reach": sorted(reach), "binds_rng": binds,
+                     "owns_rng": owns_rng(eng, clsid) if cd.name != "MagnitudeSampler" else False,
+                     "global_reads": global_random_reads(cd, rel)})
+    return rows
+
+
+def stochastic_capable(eng, clsid, seen=()):
+    """can an instance of this transform class draw random numbers? (owns a generator, or has a member that can)"""
+    if clsid in seen:
+        return False
+    if owns_rng(eng, clsid):
+        return True
+    for a, kind in members_of(eng, clsid).items():
+        if kind.startswith("ctor:"):
+            if stochastic_capable(eng, kind[5:], seen + (clsid,)):
+                return True
+        else:
+            return True       # a transform handed in from outside may be anything
+    return False
+
+
+def c07_obligations(res):
+    """frame obligations of C07 for every transform class discovered under TRANSFORM_DIRS on this run"""
+    from .engine import Engine
+    eng = Engine()
+    n_classes = 0
+    for rel, cd in repo_classes(TRANSFORM_DIRS):
+        clsid = f"{rel}::{cd.name}"
+        try:
+            is_t = _is_transform_class(eng, clsid)
+        except Exception:
+            is_t = False
+        if not is_t:
+            continue
+        n_classes += 1
+        mem = members_of(eng, clsid)
+        need = {a for a, kind in mem.items() if not kind.startswith("ctor:") or stochastic_capable(eng, kind[5:])}
+        owner, reach, binds = set_rng_reach(eng, clsid)
+        missing = sorted(need - reach)
+        add_direct(res, f"{clsid}:frame:set_rng-reaches-every-stochastic-member", "frame", not missing, where=rel,
+                   note=f"{cd.name}.set_rng (resolved to {owner.split('::')[-1] if owner else '?'}) forwards the injected generator to every "
+                        f"member that can draw: {sorted(need) or 'none'}",
+                   detail="" if not missing else f"members not reached by set_rng: {missing}", model={"class": cd.name, "members": missing} if missing else None)
+        if owns_rng(eng, clsid):
+            add_direct(res, f"{clsid}:frame:set_rng-rebinds-own-generator", "frame", binds, where=rel,
+                       note=f"{cd.name} owns self.rng and its set_rng (or a super() chain) rebinds it",
+                       detail="" if binds else "self.rng is created in __init__ but set_rng never assigns it")
+        bad = global_random_reads(cd, rel)
+        add_direct(res, f"{clsid}:frame:no-global-random-source", "frame", not bad, where=rel,
+                   note=f"{cd.name}: no method outside __init__/worker hooks reads a process-global random source",
+                   detail="; ".join(bad), model={"reads": bad} if bad else None)
+    if n_classes == 0:
+        res.errors.append("no transform class discovered")
+    return n_classes
+
+
+# ------------------------------------------------------------------------------------------------ generic definedness
+import builtins as _builtins
+
+
+def _bound_in(fn):
+    names = set()
+    a = fn.args
+    for p in a.posonlyargs + a.args + a.kwonlyargs:
+        names.add(p.arg)
+    if a.vararg: names.add(a.vararg.arg)
+    if a.kwarg: names.add(a.kwarg.arg)
+    for n in ast.walk(fn):
+        if isinstance(n, ast.Name) and isinstance(n.ctx, (ast.Store, ast.Del)):
+            names.add(n.id)
+        elif isinstance(n, (ast.FunctionDef, ast.ClassDef)) and n is not fn:
+            names.add(n.name)
+        elif isinstance(n, (ast.Import, ast.ImportFrom)):
+            for al in n.names:
+                names.add((al.asname or al.name).split(".")[0])
+        elif isinstance(n, ast.ExceptHandler) and n.name:
+            names.add(n.name)
+        elif isinstance(n, (ast.Global, ast.Nonlocal)):
+            names.update(n.names)
+    return names
+
+
+def undefined_names(res, files, tag):
+    """every name read in a function of the given files is bound on some path: parameter, local, enclosing function,
+    module level, or builtin. (Reads of names that are bound nowhere at all - the `math` / `classes` / `transform` kind.)"""
+    bad = []
+    nfun = 0
+    for rel in files:
+        path = os.path.join(REPO, rel)
+        if not os.path.exists(path):
+            continue
+        tree = ast.parse(open(path).read())
+        mod_names = set(dir(_builtins)) | {"__name__", "__file__", "__class__"}
+        for n in tree.body:
+            if isinstance(n, (ast.Import, ast.ImportFrom)):
+                for al in n.names:
+                    mod_names.add((al.asname or al.name).split(".")[0])
+            elif isinstance(n, (ast.FunctionDef, ast.ClassDef)):
+                mod_names.add(n.name)
+            else:
+                for x in ast.walk(n):
+                    if isinstance(x, ast.Name) and isinstance(x.ctx, ast.Store):
+                        mod_names.add(x.id)
+        if any(isinstance(n, ast.ImportFrom) and any(al.name == "*" for al in n.names) for n in tree.body):
+            continue       # star imports: module namespace unknown
+
+        def visit(fn, outer):
+            nonlocal nfun
+            nfun += 1
+            bound = outer | _bound_in(fn)
+
+            def scan(node, extra):
+                for ch in ast.iter_child_nodes(node):
+                    if isinstance(ch, (ast.FunctionDef, ast.AsyncFunctionDef, ast.ClassDef)):
+                        # default values / decorators are evaluated in this scope, the body in its own (visited separately)
+                        if not isinstance(ch, ast.ClassDef):
+                            for d in ch.args.defaults + [k for k in ch.args.kw_defaults if k is not None]:
+                                scan_expr(d, extra)
+                        continue
+                    if isinstance(ch, ast.Lambda):
+                        la = {p.arg for p in ch.args.posonlyargs + ch.args.args + ch.args.kwonlyargs}
+                        if ch.args.vararg: la.add(ch.args.vararg.arg)
+                        if ch.args.kwarg: la.add(ch.args.kwarg.arg)
+                        scan(ch, extra | la)
+                        continue
+                    if isinstance(ch, ast.Name) and isinstance(ch.ctx, ast.Load) and ch.id not in bound and ch.id not in extra:
+                        bad.append(f"{rel}:{ch.lineno} '{ch.id}' in {fn.name}")
+                    scan(ch, extra)
+
+            def scan_expr(e, extra):
+                if isinstance(e, ast.Name) and isinstance(e.ctx, ast.Load) and e.id not in bound and e.id not in extra:
+                    bad.append(f"{rel}:{e.lineno} '{e.id}' in {fn.name}")
+                scan(e, extra)
+            for stmt in fn.body:
+                scan_expr(stmt, set())
+
+        def walk(node, outer, in_class):
+            for ch in ast.iter_child_nodes(node):
+                if isinstance(ch, ast.FunctionDef):
+                    visit(ch, outer)
+                    walk(ch, outer | _bound_in(ch), False)
+                elif isinstance(ch, ast.ClassDef):
+                    walk(ch, outer, True)
+                else:
+                    walk(ch, outer, in_class)
+        walk(tree, mod_names, False)
+    add_direct(res, f"frame:{tag}:every-name-read-is-bound", "frame", not bad, note=f"{nfun} functions in {len(files)} files: no read of a name that is bound nowhere",
+               detail="; ".join(sorted(set(bad))[:12]), model={"unbound": sorted(set(bad))[:12]} if bad else None)
+
+
+INPLACE = ("mul_", "add_", "sub_", "div_", "clamp_", "copy_", "fill_", "zero_", "neg_", "abs_", "pow_", "sqrt_", "exp_", "log_",
+           "masked_fill_", "index_add_", "index_copy_", "scatter_", "clip_", "round_", "floor_", "ceil_", "sigmoid_", "tanh_", "relu_")
+COPYING = ("clone", "copy", "detach", "float", "double", "long", "to", "numpy", "tolist")
+
+
+def no_inplace_on_dataset_values(res, files):
+    """a value obtained from self.dataset.getitem_*/getall_* is dataset-owned (an in-memory dataset hands out its own tensor):
+    no in-place tensor method, augmented assignment or item assignment on it unless it was copied first"""
+    bad = []
+    nfun = 0
+    for rel in files:
+        path = os.path.join(REPO, rel)
+        if not os.path.exists(path):
+            continue
+        tree = ast.parse(open(path).read())
+        for fn in [n for n in ast.walk(tree) if isinstance(n, ast.FunctionDef)]:
+            nfun += 1
+            owned = set()
+            for st in ast.walk(fn):
+                if isinstance(st, ast.Assign) and isinstance(st.value, ast.Call):
+                    f = ast.unparse(st.value.func)
+                    if f.startswith("self.dataset.getitem_") or f.startswith("self.dataset.getall_"):
+                        for t in st.targets:
+                            for x in ast.walk(t):
+                                if isinstance(x, ast.Name):
+                                    owned.add(x.id)
+            # a later plain re-assignment from a copying expression releases the name (flow-insensitive approximation: only
+            # names that are never re-bound from a copy stay owned)
+            for st in ast.walk(fn):
+                if isinstance(st, ast.Assign) and len(st.targets) == 1 and isinstance(st.targets[0], ast.Name) and st.targets[0].id in owned:
+                    v = st.value
+                    if isinstance(v, ast.Call) and isinstance(v.func, ast.Attribute) and v.func.attr in ("clone",) and \
+                            isinstance(v.func.value, ast.Name) and v.func.value.id == st.targets[0].id:
+                        owned.discard(st.targets[0].id)
+            for x in ast.walk(fn):
+                if isinstance(x, ast.Call) and isinstance(x.func, ast.Attribute) and x.func.attr in INPLACE:
+                    base = x.func.value
+                    while isinstance(base, ast.Call) and isinstance(base.func, ast.Attribute) and base.func.attr in INPLACE:
+                        base = base.func.value
+                    if isinstance(base, ast.Name) and base.id in owned:
+                        bad.append(f"{rel}:{x.lineno} {base.id}.{x.func.attr}(...) in {fn.name}")
+                elif isinstance(x, ast.AugAssign) and isinstance(x.target, ast.Name) and x.target.id in owned:
+                    bad.append(f"{rel}:{x.lineno} {x.target.id} {type(x.op).__name__}= ... in {fn.name}")
+                elif isinstance(x, ast.Assign):
+                    for t in x.targets:
+                        if isinstance(t, ast.Subscript) and isinstance(t.value, ast.Name) and t.value.id in owned:
+                            bad.append(f"{rel}:{x.lineno} {t.value.id}[...] = ... in {fn.name}")
+    add_direct(res, "frame:no-in-place-write-to-dataset-owned-values", "frame", not bad,
+               note=f"{nfun} functions: values returned by the wrapped dataset are never modified in place",
+               detail="; ".join(bad[:10]), model={"writes": bad[:10]} if bad else None)
+
+
+WRAPPER_DIRS = ["kappadata/wrappers/sample_wrappers", "kappadata/common/wrappers/sample_wrappers"]
+
+
+def c09_wrapper_hooks(res):
+    """every sample wrapper that owns transforms (binds them in __init__) has a _worker_init_fn of its own (the KDWrapper
+    default does nothing) that calls a hook on those attributes"""
+    from .engine import Engine
+    eng = Engine()
+    n = 0
+    for rel, cd in repo_classes(WRAPPER_DIRS):
+        clsid = f"{rel}::{cd.name}"
+        try:
+            mro = eng.mro(clsid)
+        except Exception:
+            continue
+        if not any(c.endswith("::KDWrapper") for c in mro):
+            continue
+        mem = members_of(eng, clsid)
+        # attributes holding transforms incl. config lists (KDMultiViewWrapper.transform_configs)
+        init = next((x for x in cd.body if isinstance(x, ast.FunctionDef) and x.name == "__init__"), None)
+        if init is not None and not mem:
+            for x in ast.walk(init):
+                if isinstance(x, ast.Assign) and any(_self_attr(t) and "transform" in _self_attr(t) for t in x.targets):
+                    for t in x.targets:
+                        if _self_attr(t):
+                            mem[_self_attr(t)] = "attr"
+        if not mem:
+            continue
+        n += 1
+        r = eng.find_method(clsid, "_worker_init_fn")
+        owner = r[2] if r else None
+        own_hook = r is not None and r[0] == "repo" and not owner.endswith("::KDWrapper")
+        reached = set()
+        if own_hook:
+            fn = r[1].node
+            for x in ast.walk(fn):
+                a = _self_attr(x)
+                if a:
+                    reached.add(a)
+        lists = {a for a in mem}
+        # self.X = [self.a, self.b, ...] built from member attributes: touching X reaches those members
+        if init is not None:
+            for x in ast.walk(init):
+                if isinstance(x, ast.Assign) and isinstance(x.value, (ast.List, ast.Tuple)) and x.value.elts and \
+                        all(_self_attr(e) in mem for e in x.value.elts):
+                    for t in x.targets:
+                        if _self_attr(t) and _self_attr(t) in reached:
+                            reached |= {_self_attr(e) for e in x.value.elts}
+        ok = own_hook and bool(reached & lists)
+        add_direct(res, f"{clsid}:frame:worker-hook-reaches-owned-transforms", "frame", ok, where=rel,
+                   note=f"{cd.name} owns {sorted(mem)}; its _worker_init_fn must re-seed them in every dataloader worker",
+                   detail="" if ok else (f"{cd.name} inherits the empty KDWrapper._worker_init_fn" if not own_hook else
+                                         f"_worker_init_fn never touches {sorted(lists)}"),
+                   model=None if ok else {"class": cd.name, "owned": sorted(mem)})
+    return n
